@@ -248,6 +248,36 @@ def rule_null_table(ctx):
     ctx.check(pol.get("none") == [], "NULL.TABLE", "defaults.NULL_POLICIES#none", fi, dmod.globals["NULL_POLICIES"][0],
               "NULL_POLICIES['none'] == []",
               "NULL_POLICIES['none'] is %r: with null_policy='none' no sample may be changed" % (pol.get("none"),))
+    # the text markers: documented pattern and replacement, compared as regular-expression structure
+    NULL_SUBS_DOC = {
+        "(null)": (r" \(null\)|\(null\) | \(NULL\)|\(NULL\) | null|null | NULL|NULL ", " NaN "),
+        "-": (r" -+ ", " NaN "),
+        "NA": (r"(#N/A)[ ]|[ ](#N/A)", " NaN "),
+        "INF": (r"(-?1\.#INF)[ ]|[ ](-?1\.#INF[0-9]*)", " NaN "),
+        "IO": (r"(-?1\.#IO)[ ]|[ ](-?1\.#IO)", " NaN "),
+        "IND": (r"(-?1\.#IND)[ ]|[ ](-?1\.#IND[0-9]*)", " NaN "),
+    }
+    from sa import rx as _rx
+    for key, (wp, wr) in NULL_SUBS_DOC.items():
+        got = subs.get(key)
+        pr = []
+        if not (isinstance(got, list) and len(got) == 1 and isinstance(got[0], tuple) and len(got[0]) == 2):
+            pr.append("entry is %r" % (got,))
+        else:
+            gp, gr = got[0]
+            pat = gp.pattern if isinstance(gp, Regex) else gp
+            try:
+                gt_, wt_ = _rx.parse(pat, gp.flags if isinstance(gp, Regex) else 0), _rx.parse(wp)
+                same = _rx.canonical(_rx.flatten(list(gt_), gp.flags if isinstance(gp, Regex) else 0), {}) == _rx.canonical(_rx.flatten(list(wt_)), {})
+            except Exception:  # noqa
+                same = pat == wp
+            if not same:
+                pr.append("pattern %r is not the documented %r: which blank belongs to the marker decides whether the neighbouring "
+                          "field delimiter survives (a pattern that eats the preceding whitespace merges two tab-separated fields)" % (pat, wp))
+            if gr != wr:
+                pr.append("replacement %r is not %r" % (gr, wr))
+        ctx.check(not pr, "NULL.TABLE", "defaults.NULL_SUBS#%s" % key, fi, dmod.globals["NULL_SUBS"][0],
+                  "text null marker %s has the documented pattern and replacement" % key, "%s: %s" % (key, "; ".join(pr)))
     ctx.check(subs.get("NULL") == [None], "NULL.TABLE", "defaults.NULL_SUBS#NULL", fi, dmod.globals["NULL_SUBS"][0],
               "NULL_SUBS['NULL'] == [None] (placeholder resolved from the header in LASFile.read)",
               "NULL_SUBS['NULL'] is %r: a fixed number here is replaced in every column including the index, whatever the "
@@ -718,6 +748,15 @@ def rule_trim(ctx, trim=True):
         ctx.undecided("DATA.SPLIT", "reader.define_line_splitter#vocabulary", ff, ff.node,
                       "no {delimiter name: splitter function} table found in or referenced from define_line_splitter")
         return
+    # the splitter is chosen by the DLM value exactly as given (read() compares that value exactly when it picks its policies)
+    dparam = ff.params()[0]
+    for r_ in [x for x in walk_shallow(ff.node) if isinstance(x, ast.Return) and x.value is not None]:
+        v = r_.value
+        exact = isinstance(v, ast.Subscript) and isinstance(v.slice, ast.Name) and v.slice.id == dparam
+        ctx.check(exact, "DATA.SPLIT", "reader.define_line_splitter#lookup", ff, r_,
+                  "the splitter is table[<DLM value>]: an unknown DLM is an error, a known one is matched exactly",
+                  "the splitter is chosen with `%s`: the DLM value is normalised or defaulted here while LASFile.read compares it "
+                  "exactly (e.g. `DLM. Comma` is split on commas but still gets the comma-decimal-mark substitution)" % unparse(v))
     keys = [k.value for k in table.keys]
     ctx.check(set(keys) == {"SPACE", "COMMA", "TAB"}, "DATA.SPLIT", "reader.define_line_splitter#vocabulary", ff, table,
               "splitter keys == the DLM vocabulary {SPACE, COMMA, TAB}",
@@ -739,8 +778,17 @@ def rule_trim(ctx, trim=True):
             continue
         rets = [s.value for s in walk_shallow(fn.node) if isinstance(s, ast.Return)] if not isinstance(fn.node, ast.Lambda) else [fn.node.body]
         if len(rets) != 1:
-            raise AnalysisError("splitter %s has %d returns" % (key, len(rets)))
-        ret = rets[0]
+            # several ways to split one kind of line (a "fast path"): every one of them must satisfy the clauses below; that is
+            # decided for the first form that does not
+            worst = None
+            for cand in rets:
+                tr_, why_, pos_ = _tokens_trimmed(cand, local, env)
+                merged_ = isinstance(cand, ast.Call) and isinstance(cand.func, ast.Attribute) and cand.func.attr == "findall"
+                if (key in ("SPACE", "TAB") and not merged_) or (key == "COMMA" and not pos_):
+                    worst = cand
+            ret = worst if worst is not None else rets[0]
+        else:
+            ret = rets[0]
         trimmed, why, positional = _tokens_trimmed(ret, local, env)
         if key in ("SPACE", "TAB"):
             merged = isinstance(ret, ast.Call) and isinstance(ret.func, ast.Attribute) and ret.func.attr == "findall"
@@ -1208,6 +1256,20 @@ def rule_wrap_consistent(ctx):
             n += 1
             txt = ast.unparse(s_.value)
             ok = isinstance(s_.value, ast.Compare) and "WRAP" in txt and "'YES'" in txt and isinstance(s_.value.ops[0], ast.Eq)
+            # ... read the way the reader reads it: the reader compares the WRAP value with "YES" exactly, so a normalisation here
+            # (upper/strip/...) makes the writer wrap a file whose header the reader takes for unwrapped
+            norms = sorted({c.func.attr for c in ast.walk(s_.value) if isinstance(c, ast.Call) and isinstance(c.func, ast.Attribute)
+                            and c.func.attr in ("upper", "lower", "casefold", "strip", "lstrip", "rstrip", "startswith", "title", "capitalize")})
+            if ok and norms:
+                rd_fi = host_data(p)
+                rwv = _wrap_var(rd_fi)
+                rnorms = sorted({c.func.attr for t_ in ast.walk(rd_fi.node) if isinstance(t_, ast.Compare)
+                                 and any(isinstance(x, ast.Name) and x.id == rwv for x in ast.walk(t_))
+                                 for c in ast.walk(t_) if isinstance(c, ast.Call) and isinstance(c.func, ast.Attribute)}) if rwv else []
+                ctx.check(norms == rnorms, "WR.WRAP-CONSISTENT", "writer.write#wrap-default:normalisation", fw, s_,
+                          "writer and reader read the WRAP value with the same normalisation (%s)" % (norms or "none"),
+                          "the writer decides wrap=None from the WRAP value normalised with %s, the reader compares it with \"YES\" %s: for "
+                          "`WRAP. Yes` the data is written wrapped under a header the reader takes for unwrapped" % (norms, rnorms or "exactly"))
             ctx.check(ok, "WR.WRAP-CONSISTENT", "writer.write#wrap-default", fw, s_, "wrap=None means: as the WRAP item says (== 'YES')",
                       "`%s` does not derive the default from WRAP == 'YES'" % unparse(s_))
     if n == 0:
@@ -1334,3 +1396,49 @@ def rule_engine_select(ctx):
               "the switch to the reference engine no longer depends on `%s == \"YES\"`: a wrapped file whose physical lines all hold the "
               "same number of values is read by the fast engine with every line as a row (wrong curve lengths, extra curves)" % wv)
     ctx.floor("DATA.ENGINE-SELECT", 1)
+
+
+def rule_tokens_kept(ctx):
+    """DATA.TOKENS-KEPT: the reference engine yields every token of every content line: the loop that yields the items iterates
+    over the splitter's result for the line (directly or through one local), and nothing empties or filters that list"""
+    p = ctx.p
+    fe = p.func("reader.read_data_section_iterative_normal_engine")
+    gens = [nf for nm, nf in fe.nested.items() if not isinstance(nf.node, ast.Lambda) and any(isinstance(y, ast.Yield) for y in ast.walk(nf.node))]
+    called = {c.func.id for c in ast.walk(fe.node) if isinstance(c, ast.Call) and isinstance(c.func, ast.Name)}
+    gens += [mf for nm, mf in fe.module.functions.items() if nm in called and any(isinstance(y, ast.Yield) for y in ast.walk(mf.node))]
+    if not gens:
+        ctx.undecided("DATA.TOKENS-KEPT", fe.qual + "#tokens", fe, fe.node, "no token generator found in the reference engine")
+        return
+    g = gens[0]
+    site = g.qual + "#tokens"
+    yl = None
+    for lp in [x for x in ast.walk(g.node) if isinstance(x, ast.For)]:
+        if any(isinstance(y, ast.Yield) for st in lp.body for y in ast.walk(st)) and not any(
+                isinstance(x, ast.For) and any(isinstance(y, ast.Yield) for y in ast.walk(x)) for st in lp.body for x in ast.walk(st)):
+            yl = lp
+    if yl is None:
+        ctx.undecided("DATA.TOKENS-KEPT", site, g, g.node, "no loop that yields the items of a line")
+        return
+
+    def has_split(e):
+        return any(isinstance(c, ast.Call) and "splitter" in ast.unparse(c.func) for c in ast.walk(e))
+    problems = []
+    src = yl.iter
+    if isinstance(src, ast.Name):
+        defs = [a for a in ast.walk(g.node) if isinstance(a, (ast.Assign, ast.AugAssign)) and any(
+            isinstance(t, ast.Name) and t.id == src.id for t in (a.targets if isinstance(a, ast.Assign) else [a.target]))]
+        good = [a for a in defs if isinstance(a, ast.Assign) and has_split(a.value)]
+        other = [a for a in defs if a not in good]
+        if not good:
+            problems.append("the yielded items `%s` do not come from the line splitter" % src.id)
+        for a in other:
+            problems.append("`%s` replaces the tokens of a line (under some condition): those tokens are never yielded, so the "
+                            "same values wrapped differently give a different result" % unparse(a)[:60])
+    elif not has_split(src):
+        problems.append("the yield loop iterates `%s`, not the splitter's tokens" % unparse(src)[:60])
+    else:
+        for c in ast.walk(src):
+            if isinstance(c, ast.comprehension) and c.ifs:
+                problems.append("tokens are filtered (`if %s`) before they are yielded" % unparse(c.ifs[0]))
+    ctx.check(not problems, "DATA.TOKENS-KEPT", site, g, yl, "every token of a content line is yielded", "; ".join(problems))
+    ctx.floor("DATA.TOKENS-KEPT", 1)
